@@ -75,7 +75,9 @@ SCHEMAS = {
     'subj_evid': dict(
         model='iv', id='SUBJ', cols=['EVID'], kinds=['o', 'd', 'r', 'R'], small=True
     ),
-    'subj_addl': dict(model='iv', id='SUBJ', cols=['ADDL', 'II'], kinds=['o', 'd', 'da']),
+    'subj_addl': dict(
+        model='iv', id='SUBJ', cols=['EVID', 'ADDL', 'II'], kinds=['o', 'd', 'da']
+    ),
     'cmt': dict(model='ivoral', id='ID', cols=['CMT'], kinds=['o', 'd1', 'd2']),
     'cmt_evid': dict(
         model='ivoral', id='ID', cols=['EVID', 'CMT'], kinds=['o', 'd1', 'd2', 'R1']
@@ -245,7 +247,8 @@ def _walk_doseid(recs, expand):
     expand=True inserts the additional doses (ADDL/II) as separate dose events at
     time + k*II (k=1..ADDL) in chronological position inside the reset group of their record.
     Rule (docstring of get_doseid): a non-dose record at the time of a dose belongs to the
-    preceding dose interval; if there is no preceding dose it stays with the (first) dose.
+    preceding dose interval; at the first dose (of the individual or after a reset) there is
+    no preceding interval and both the period before and the period of that dose are accepted.
     A steady state dose keeps the records at its time (comment in get_doseid).
     Records of different reset groups (separated by EVID 3/4) are never at "the same time".
     Returns (doseid list, tad list) indexed by original row; a doseid is a tuple of the allowed
@@ -282,14 +285,18 @@ def _walk_doseid(recs, expand):
                     d = doses[k - 1]
                     return d[0] == t and d[1] == r['rg'] and not d[2]
 
+                def first_in_group(k):
+                    return k == 1 or doses[k - 2][1] != doses[k - 1][1]
+
                 k = len(doses)
-                while k > 1 and tied(k):
+                while k >= 1 and tied(k) and not first_in_group(k):
                     k -= 1
-                if k == 1 and tied(1):
-                    # at the time of the individual's first dose there is no preceding dose:
-                    # the docstring rule gives the pre-dose period 0, the code comment keeps the
-                    # record with the first dose; the property does not decide -> either
-                    doseid[r['row']] = (0, 1)
+                if k >= 1 and tied(k):
+                    # at the time of the first dose of the individual (or of the first dose
+                    # after a reset) there is no preceding dose interval: the docstring rule
+                    # gives the period before that dose, the code comment keeps the record with
+                    # the first dose; the property does not decide -> either
+                    doseid[r['row']] = (k - 1, k)
                 else:
                     doseid[r['row']] = (k,)
                     if k >= 1 and doses[k - 1][1] == r['rg']:
@@ -948,8 +955,11 @@ def _check_tad(ctx, df0, di, res, ref, desc):
         if 'TAD' not in d.columns:
             return
     rest = d[[c for c in d.columns if c != 'TAD']]
+    ids = [r['idval'] for r in recs]
+    osuffix = '' if ids == sorted(ids) else ' (individuals not in ascending id order)'
     if not _same_values(rest, df0, df0.columns):
-        ctx.fail(fname, 'existing records and values are kept in the original order', shown)
+        ctx.fail(fname, 'existing records and values are kept in the original order' + osuffix,
+                 shown)
     elif list(rest.dtypes) != list(df0.dtypes):
         ctx.fail(fname, 'existing column dtypes are kept',
                  f'{dict(rest.dtypes)} before {dict(df0.dtypes)}')
